@@ -65,8 +65,54 @@ def gen(rng, small=False):
     return dict(stacks=[dict(dll='j1939-21', max_cmdt=1)], jit=[jit], script=ops, inject=inject, horizon=end)
 
 
+def gen_busy(rng):
+    """a periodic timer P and a callback B that blocks the job thread for more than one period of P, once: afterwards P
+    must be back on its grid t_reg + k*delta ('keeps being called every delta without accumulating drift')"""
+    jit = rng.choice([1, 1, 400])
+    dP = rng.choice([1000, 2000, 5000, 20000, 100000])
+    dB = rng.choice([3000, 7000, 50000, 130000])
+    d = int(dP * rng.choice([1.3, 2.5, 3.2, 4.7])) + rng.choice([0, 7, 333])
+    tP, tB = 1000 + rng.choice([0, 1, 400]), 1000 + rng.choice([0, 0, 300])
+    ops = [dict(t=tP, s=0, op='add_timer', cid=1, delta=dP, ret=True),
+           dict(t=tB, s=0, op='add_timer', cid=2, delta=dB, ret=rng.random() < 0.5, script=[dict(op='busy', d=d, at=rng.choice([1, 2]), key=2)])]
+    if rng.random() < 0.4:
+        ops.append(dict(t=1000, s=0, op='add_timer', cid=3, delta=rng.choice([1000, 4000, 9000]), ret=True))
+    ops.sort(key=lambda o: o['t'])
+    return dict(stacks=[dict(dll='j1939-21', max_cmdt=1)], jit=[jit], script=ops, inject=[], horizon=tB + 2 * dB + d + 40 * dP,
+                meta=dict(kind='busy', period=dP, busy=d))
+
+
+def oracle_busy(sc, res):
+    J = max(sc['jit'])
+    v = []
+    busy = [(e[0], e[0] + e[3]) for e in res.trace if e[2] == 'busy']
+    regs = {e[4]: (e[0], e[5]) for e in res.trace if e[2] == 'api' and e[3] == 'add_timer'}
+    if not busy:
+        return v
+    t_free = max(b for a, b in busy)
+    for cid, (t0, delta) in regs.items():
+        if cid == 2:
+            continue
+        fires = [e[0] for e in res.trace if e[2] == 'timer' and e[3] == cid and e[0] > t_free + 2 * delta + J]
+        for t in fires:
+            off = (t - t0) % delta
+            if off > J + 1:
+                v.append(dict(kind='periodic-timer-off-its-grid-after-an-overrun', cid=cid, registered=t0, period=delta, invoked=t, off_grid_by=off,
+                              blocked=[busy[0][0], busy[0][1]]))
+                break
+        # ... and it keeps firing: one invocation per period once the ECU is idle again
+        if fires and len(fires) < (sc['horizon'] - (t_free + 2 * delta + J)) // delta - 2:
+            v.append(dict(kind='timer-late-or-suppressed', cid=cid, invocations=len(fires)))
+    for j, js in enumerate(res.job):
+        if js != 'alive':
+            v.append(dict(kind='job-thread-' + js, stack=j))
+    return v
+
+
 def oracle(sc, res):
     """reads registration / removal instants from the trace and checks the property on the firing instants"""
+    if sc.get('meta', {}).get('kind') == 'busy':
+        return oracle_busy(sc, res)
     J = max(sc['jit'])
     H = sc['horizon']
     regs = []      # dict(cid, t, delta, periodic, removed_at)
@@ -174,12 +220,12 @@ def run(out, tier, rng, work):
     import sprop
     out.rule = ('one real ECU under virtual time; histories of up to 12 add_timer/remove_timer/subscribe/unsubscribe operations, '
                 'periods on {1 ms..3 s}, one-shot and periodic, duplicate registrations, operations from inside timer callbacks, idle gaps, '
-                'jitter 1 or 400 us; probe broadcasts make subscriptions observable; oracle: every due instant t_reg + k*delta is served '
+                'jitter 1 or 400 us; every fifth history: a callback that blocks the job thread for 1.3..4.7 periods of another periodic timer (overrun), which must then be back on its grid; probe broadcasts make subscriptions observable; oracle: every due instant t_reg + k*delta is served '
                 'within [due, due+J], nothing fires early / after removal / too often; every handler log replayed on the Coq model; '
                 'non-trivial = at least one timer invocation; distinct by scenario hash')
     out.assumptions = ['A1-A3, A6 of DESIGN.md section 3; scheduling latency is the scenario jitter J',
                        'remove_timer racing with a pass that already holds the event on another thread is below handler granularity: not exhibited']
-    sprop.run_stateful(out, 'C12', tier, rng, work, FILES, lambda r, k: gen(r, small=(k % 3 == 0)), oracle, 150, 2500,
+    sprop.run_stateful(out, 'C12', tier, rng, work, FILES, lambda r, k: (gen_busy(r) if k % 5 == 4 else gen(r, small=(k % 3 == 0))), oracle, 150, 2500,
                        lambda sc, res: any(e[2] == 'timer' for e in res.trace),
                        sample=lambda sc, res: dict(script=sc['script'][:4], jit=sc['jit'], timer_invocations=sum(1 for e in res.trace if e[2] == 'timer')))
 
